@@ -114,7 +114,7 @@ atexit.register(_dump)
 #    (prepare_iter_for_array).  CrossHair's proxy classes for int/bool/str define __slots__, so a
 #    symbolic int would be taken for a container and the array would become dtype=object -- an artefact
 #    of the proxy, not of the code.  hasattr on a symbolic value of a builtin type answers for that
-#    builtin type when the attribute is a dunder name.
+#    builtin type for '__slots__' (only that name: the model itself probes '__ch_realize__').
 from crosshair.util import CrossHairValue as _CHV
 
 _orig_hasattr = _chcore._PATCH_REGISTRATIONS.get(hasattr)
@@ -123,7 +123,7 @@ _orig_hasattr = _chcore._PATCH_REGISTRATIONS.get(hasattr)
 def _hasattr_like_pytype(obj, name, _orig=_orig_hasattr, _NT=_NoTracing, _CHV=_CHV, _hasattr=hasattr, _isinstance=isinstance,
         _str=str, _builtin_types=(int, bool, str, float, bytes, tuple, list, dict, set, frozenset)):
     with _NT():
-        if _isinstance(obj, _CHV) and _isinstance(name, _str) and name.startswith('__') and _hasattr(obj, '__ch_pytype__'):
+        if _isinstance(obj, _CHV) and _isinstance(name, _str) and name == '__slots__' and _hasattr(obj, '__ch_pytype__'):
             try:
                 pt = obj.__ch_pytype__()
             except Exception:  # noqa: BLE001
